@@ -72,6 +72,9 @@ def param_alternatives(ctx, h0, name, kind):
         v = Const(name, BoolSort()); return [(B(v), [])]
     if kind == 'key':
         return [(('key', Const(name, c.Key)), [Const(name, c.Key) != c.KEY_NS])]
+    if kind == 'list':
+        L = Const(name + '_list', c.Lst); y = Const('yq_pl', c.Ref)
+        return [(('list', L, None), [ForAll([y], Implies(c.cnt(L, y) > 0, h0['alloc'][y]), patterns=[c.cnt(L, y)]), c.len(L) >= 0])]
     if kind == 'optkey':
         return [(R(c.null), [])] + param_alternatives(ctx, h0, name, 'key')
     if kind.startswith('optis:'):
@@ -99,6 +102,7 @@ SUITES = {
            'files': {'DefaultNamespace': 'spydrnet/plugins/namespace_manager/default_namespace.py',
                      'EdifNamespace': 'spydrnet/plugins/namespace_manager/edif_namespace.py'}, 'obligations': 'posts'},
     'clone': {'module': 'specs.clone', 'spec_class': 'CloneSpec', 'functions': 'specs.clone', 'files': {}, 'obligations': 'posts'},
+    'edifnames': {'module': 'specs.edifnames', 'spec_class': 'EdifNamesSpec', 'functions': 'specs.edifnames', 'files': {}, 'obligations': 'posts'},
     'href': {'module': 'specs.href', 'spec_class': 'HRefSpec', 'functions': 'specs.href', 'files': {}, 'obligations': 'posts'},
     'compare': {'module': 'specs.compare', 'spec_class': 'CompareSpec', 'functions': 'specs.compare',
                 'files': {'Comparer': 'spydrnet/compare/compare_netlists.py'}, 'obligations': 'posts'},
